@@ -265,7 +265,7 @@ func corpus() []corpusApp {
 			return a
 		}, []engine.Config{{}, {CacheSize: 5}, {OutputSize: 30, CacheSize: 8}})
 	}
-	for pi, p := range []c06Prog{{false, false, 9, true}, {true, true, 8, true}, {true, false, 10, false}, {false, true, 8, false}} {
+	for pi, p := range []c06Prog{{Croak: false, Post: false, K: 9, M: true}, {Croak: true, Post: true, K: 8, M: true}, {Croak: true, Post: false, K: 10, M: false}, {Croak: false, Post: true, K: 8, M: false}} {
 		p := p
 		for si, sr := range [][2][]uint32{{{9}, {}}, {{8, 6}, {}}, {{8}, {9}}, {{7}, {8}}} {
 			sr := sr
